@@ -14,7 +14,7 @@ META = {
     "text": "StreamLife.tla models ONE stream call as two peers (method body, header stream, input loop with "
             "coerce/process/validate/flush, finish, cancel branch; StreamSession and HttpStreamSession with /init "
             "preloading, continuation tokens, stateless exchange and cancel).  TLC explores every call "
-            "(transport x producer|exchange x header x every step script over emit / log+emit / emit+finish / finish / "
+            "(transport x reading API of an HTTP producer session (__iter__ | next_with_token) x producer|exchange x header x every step script over emit / log+emit / emit+finish / finish / "
             "log-only / raise up to the length bound x every client operation sequence: k ticks then close | cancel | "
             "iterate, and uses of the session after a cancel x input-schema perturbation exact | reordered | int32->int64 "
             "| different field set) and checks the 15 clauses of StreamLifeClauses.tla on every reachable state "
